@@ -706,6 +706,12 @@ func (p *parser) lowerClass(stmt js_ast.Stmt, expr js_ast.Expr, result visitClas
 			// the class expression name itself
 			if result.innerClassNameRef != ast.InvalidRef {
 				p.mergeSymbols(result.innerClassNameRef, ctx.class.Name.Ref)
+			} else {
+				// The name of a class expression is not a member of any scope. If it's
+				// also not linked to the inner class name, renaming nested scopes would
+				// never see it and a reference inside the class to an outer symbol that
+				// ends up with the same name would be captured by the class name.
+				p.currentScope.Generated = append(p.currentScope.Generated, ctx.class.Name.Ref)
 			}
 
 			// Remove unused class names when minifying. Check this after we merge in
